@@ -4,7 +4,6 @@ import (
 	"errors"
 	"net"
 	"strconv"
-	"strings"
 )
 
 const hexDigit = "0123456789abcdef"
@@ -293,9 +292,12 @@ func IsFqdn(s string) bool {
 
 	// Otherwise we have to check if the dot is escaped or not by checking if
 	// there are an odd or even number of escape sequences before the dot.
-	i := strings.LastIndexFunc(s, func(r rune) bool {
-		return r != '\\'
-	})
+	// Names are strings of octets: count the backslashes octet by octet (a
+	// multi-octet UTF-8 character before them must not change the parity).
+	i := len(s) - 1
+	for i >= 0 && s[i] == '\\' {
+		i--
+	}
 	return (len(s)-i)%2 != 0
 }
 
